@@ -394,19 +394,22 @@ def check(case, mon):
     if exact and n >= 2:
         # the SAME ndarray object, overwritten in place between two evaluations (a solver
         # reusing its state array): the second answer must belong to the new content
-        buf = x.copy()
+        # (both contents differ from the previous query, so neither call can be served
+        # from something remembered for an equal array)
+        xa, xb = x[:, ::-1], np.roll(x, 1, axis=1)
+        buf = xa.copy()
         table.interpolate(buf)
-        buf[:] = x[:, ::-1]
+        buf[:] = xb
         got2 = np.asarray(table.interpolate(buf))
         mon.count("interpolate_same_array_modified_in_place")
-        mon.close("interpolate_inplace", got2, f.exact(x[:, ::-1]), TOL,
+        mon.close("interpolate_inplace", got2, f.exact(xb), TOL,
                   "interpolate:stale-result-for-array-modified-in-place", scale=fscale)
         if d >= 1 and ftype == "affine":
-            buf = x.copy()
+            buf = xa.copy()
             table.gradient(buf, 0)
-            buf[:] = x[:, ::-1]
+            buf[:] = xb
             mon.close("gradient_inplace", np.asarray(table.gradient(buf, 0)),
-                      np.asarray(table.gradient(x[:, ::-1].copy(), 0)), TOL,
+                      np.asarray(table.gradient(xb.copy(), 0)), TOL,
                       "gradient:stale-result-for-array-modified-in-place", scale=fscale)
     if case.get("single"):
         # a single point handed over as a 1-D array
